@@ -56,7 +56,7 @@ func genTree(c *simrt.Choices) []TreeEnt {
 
 func genUniverse(c *simrt.Choices, g genCfg) *Universe {
 	u := &Universe{Files: map[string]string{}, Specs: map[string]*Spec{}, Aliases: map[string]string{}, Ext: map[string]string{"tool": "1.0", "cond": "ok"}}
-	allPkgs := []string{"", "a", "a/b", "lib", "a2"}
+	allPkgs := []string{"", "a", "a/b", "lib", "a2", "a-gen", "a.x"}
 	npk := 1 + c.Choose(3, "npkgs")
 	pkgs := allPkgs[:1]
 	for i := 1; i < npk; i++ {
@@ -100,6 +100,10 @@ func genUniverse(c *simrt.Choices, g genCfg) *Universe {
 		if g.Features["tests"] && len(order) > 0 && chance(c, 1, 5, "is-test") {
 			s.Name += "_test"
 		}
+		if g.Features["flatnames"] && p == "a" && chance(c, 1, 2, "flatname") {
+			// //a:b_tK and //a/b:tK flatten to the same string when separators are replaced
+			s.Name = fmt.Sprintf("b_t%d", c.Choose(n, "flat-k"))
+		}
 		if _, dup := u.Specs[s.Label()]; dup {
 			s.Name = fmt.Sprintf("t%d", i)
 		}
@@ -126,6 +130,9 @@ func genUniverse(c *simrt.Choices, g genCfg) *Universe {
 				d := order[c.Choose(len(order), "dep")]
 				if u.Specs[d].IsTest() {
 					continue
+				}
+				if u.Specs[d].HasTag("testonly") && !s.IsTest() {
+					continue // only tests (and testonly targets) may depend on testonly targets
 				}
 				ref := d
 				if g.Features["alias"] && chance(c, 1, 3, "via-alias") {
@@ -190,7 +197,9 @@ func genUniverse(c *simrt.Choices, g genCfg) *Universe {
 				s.Outs = []OutSpec{{Kind: "file", Path: "out/" + s.Name + ".out"}}
 			}
 		}
-		if g.Features["tags"] {
+		if g.Features["testonly"] && len(s.Deps) == 0 && chance(c, 1, 4, "testonly") {
+			s.Tags = []string{"testonly"}
+		} else if g.Features["tags"] {
 			switch c.Choose(10, "tags") {
 			case 7:
 				s.Tags = []string{"ci"}
@@ -320,6 +329,9 @@ func genEdit(c *simrt.Choices, u *Universe, g genCfg, snapshots []*Universe) (*U
 	}
 	if g.Features["extfail"] {
 		kinds = append(kinds, "ext-fail", "ext-fail")
+	}
+	if g.Features["tags"] && g.Features["nocache-build"] {
+		kinds = append(kinds, "toggle-nocache")
 	}
 	k := kinds[c.Choose(len(kinds), "edit-kind")]
 	n := u.Clone()
@@ -461,7 +473,7 @@ func genEdit(c *simrt.Choices, u *Universe, g genCfg, snapshots []*Universe) (*U
 		s := lab()
 		var cands []string
 		for _, l := range labels {
-			if l != s.Label() && !n.dependsOn(l, s.Label()) && !n.Specs[l].IsTest() {
+			if l != s.Label() && !n.dependsOn(l, s.Label()) && !n.Specs[l].IsTest() && !n.Specs[l].HasTag("testonly") {
 				cands = append(cands, l)
 			}
 		}
@@ -507,7 +519,7 @@ func genEdit(c *simrt.Choices, u *Universe, g genCfg, snapshots []*Universe) (*U
 			// users of a must not end up depending on themselves
 			var cands []string
 			for _, l := range labels {
-				ok := !n.Specs[l].IsTest()
+				ok := !n.Specs[l].IsTest() && !n.Specs[l].HasTag("testonly")
 				for _, user := range labels {
 					for _, d := range n.Specs[user].Deps {
 						if d == a || n.Aliases[d] == a {
@@ -560,13 +572,29 @@ func genEdit(c *simrt.Choices, u *Universe, g genCfg, snapshots []*Universe) (*U
 			sp.Ver++
 			ed.Target = sp.Label()
 		}
+	case "toggle-nocache":
+		sp := lab()
+		var tags []string
+		had := false
+		for _, t := range sp.Tags {
+			if t == "no-cache" {
+				had = true
+			} else {
+				tags = append(tags, t)
+			}
+		}
+		if !had {
+			tags = append(tags, "no-cache")
+		}
+		sp.Tags = tags
+		ed.Target, ed.Detail = sp.Label(), fmt.Sprint("no-cache=", !had)
 	case "ext-fail":
 		sp := lab()
 		key := "fail_" + sp.Label()
 		if n.Ext[key] != "" {
 			n.Ext[key] = ""
 		} else {
-			n.Ext[key] = pick(c, "extfail-kind", "exit", "omit", "break")
+			n.Ext[key] = pick(c, "extfail-kind", "exit", "omit", "break", "slow")
 		}
 		ed.Target, ed.Detail = sp.Label(), n.Ext[key]
 	case "toggle-fail":
